@@ -118,14 +118,35 @@ def sourceIterable : Source → Bool
   | .range r | .rangeIter r _ => r.kind.iterable
   | _ => true
 
+/-- Run-time class of the receivers on which `Std::Iterable::FiniteBase/Base` is declared (headers) but
+not registered today (D19): dynamic dispatch of any of the generic operations finds no method there.
+(`Std::Channel` has its own `length`.) -/
+def unregistered (src : String) (op : String) : Option String :=
+  let kind := (src.splitOn ":").headD ""
+  let cls : Option String :=
+    match kind with
+    | "it.cr" => some "Std::ClosedRange::Iterator" | "it.or" => some "Std::OpenRange::Iterator"
+    | "it.lor" => some "Std::LeftOpenRange::Iterator" | "it.ror" => some "Std::RightOpenRange::Iterator"
+    | "it.ecr" => some "Std::EndlessClosedRange::Iterator" | "it.eor" => some "Std::EndlessOpenRange::Iterator"
+    | "listit" => some "Std::ArrayList::Iterator" | "tupleit" => some "Std::ArrayTuple::Iterator"
+    | "setit" => some "Std::HashSet::Iterator" | "gen" => some "Std::Generator" | "chan" => some "Std::Channel"
+    | _ => none
+  match cls with
+  | some c => if c == "Std::Channel" && op == "length" then none else some s!"missing {c}#{op}"
+  | none => none
+
 def handle : List String → String
   | _mode :: src :: "rcontains" :: [v] =>
     match parseSource src, parseInt? v with
     | some (.range r), some x => if r.contains x then "ok true" else "ok false"
     | _, _ => "bad-op"
-  | _mode :: src :: op =>
+  | mode :: src :: op =>
     match parseSource src, parseOp op with
-    | some s, some o => if sourceIterable s then showAnswer (evalSource s o) else "err NoIter"
+    | some s, some o =>
+      if !sourceIterable s then "err NoIter"
+      else match (if mode == "d" then unregistered src (op.headD "") else none) with
+        | some m => m
+        | none => showAnswer (evalSource s o)
     | _, _ => "bad-op"
   | _ => "bad-op"
 
